@@ -121,7 +121,7 @@ class Tree:
                 raise exc
             for c, cls in children:
                 if not c.get("config_only"):
-                    self.add_component(c["alias"], type=cls, **c.get("kwargs", {}))
+                    self.add_component(c["alias"], type=tree.type_decl(c, cls), **c.get("kwargs", {}))
 
         ns: dict[str, Any] = {"__init__": __init__, "_vpath": path}
         if node.get("prepare") is not None:
@@ -160,6 +160,17 @@ class Tree:
             mid = type(name + "_Base", (base,), methods)
             return type(name, (mid,), ns)
         return type(name, (base,), ns)
+
+    def type_decl(self, node: dict, cls: type) -> Any:
+        """How the component's type is declared: the class itself, or (node["byref"]) a ``module:attr`` reference as a configuration
+        file would give it."""
+        if not node.get("byref"):
+            return cls
+        import vkplugins.comps as mod
+
+        attr = "Dyn_" + cls.__name__
+        setattr(mod, attr, cls)
+        return f"vkplugins.comps:{attr}"
 
     # ------------------------------------------------------------------------------------------
     async def run_steps(self, path: str, phase: str, steps: list) -> Any:
@@ -262,6 +273,29 @@ class Tree:
                             continue
                         raise
                     env.log("get-", tag, lab(r), env.env_events - ev0)
+                elif k == "getc":
+                    # a request the component gives up on: the wait runs inside a cancel scope that the environment may cancel
+                    _, tname, name, tag = st[:4]
+                    ev0 = env.env_events
+                    env.log("get+", tag, tname, name, "shortcut", False)
+                    with anyio.CancelScope() as scope:
+                        env.action(f"cancel:{tag}", scope.cancel)
+                        try:
+                            r = await ac.get_resource(RT[tname], name)
+                            env.log("get-", tag, lab(r), env.env_events - ev0)
+                        finally:
+                            env.drop_action(f"cancel:{tag}")
+                    if scope.cancelled_caught:
+                        env.log("get-cancelled", tag)
+                elif k == "addx":
+                    # a publication that is expected to be refused (one of its types is taken): the component carries on
+                    _, tname, name, label = st[:4]
+                    v = RAB(label) if tname == "RAB" else RT[tname](label)
+                    try:
+                        ac.add_resource(v, name, [RA, RB] if tname == "RAB" else RT[tname])
+                        env.log("added", path, phase, tname, name, label)
+                    except ac.ResourceConflict:
+                        env.log("add-refused", path, phase, tname, name, label)
                 elif k == "td":
                     ac.add_teardown_callback(lambda l=st[1]: env.log("td", l))
                     env.log("td-reg", st[1])
@@ -305,6 +339,26 @@ class Tree:
                         exc = (CompFail if st[1] == "E" else CompFail2)(f"{path}:{phase}")
                     self.raised.append(exc)
                     raise exc
+                elif k == "addc":
+                    # add_component() once the tree is being started: the hierarchy was instantiated before any prepare()/start()
+                    # ran, so a child added now can only be refused (RuntimeError)
+                    lpath = f"{path}.late" if path else "late"
+
+                    class Late(ac.Component):
+                        def __init__(self) -> None:
+                            env.log("ctor", lpath)
+
+                        async def prepare(self) -> None:
+                            env.log("late-phase", lpath, "prepare")
+
+                        async def start(self) -> None:
+                            env.log("late-phase", lpath, "start")
+
+                    try:
+                        self.instances[path].add_component("late", Late)
+                        env.log("addc-accepted", path, phase)
+                    except RuntimeError:
+                        env.log("addc-refused", path, phase)
                 elif k == "ctxprobe":
                     self._ctxprobe(path, phase, st)
                 elif k == "return":
